@@ -112,7 +112,7 @@ def one(ctx, rng, xr):
     offlat = bool(rng.random() < 0.3) and method != "bbox"
     if offlat:
         # query points off the 1/8-degree lattice (not representable in single precision), some very close to a station
-        step = float(rng.choice([0.001, 0.01, 0.1]))
+        step = float(rng.choice([0.001, 0.01, 0.1, 1e-5, 1e-6]))        # down to a few metres from a station
         qlon_true = (qlon_true + step * rng.integers(3, 40, nq) * rng.choice([-1, 1], nq)) % 360
         qlat = qlat + step * rng.integers(3, 40, nq) * rng.choice([-1, 1], nq)
     if rng.random() < 0.15 and nq > 1:
